@@ -4,20 +4,17 @@
     [classify ks mb = None] is the fragment the theorem c19_search_exact covers. *)
 From Coq Require Import String Ascii List Bool Arith NArith ZArith.
 From Raven Require Import Base.GoStr Model.Search Model.SearchText Spec.Search.
+From Raven Require Model.SeqSet Spec.SeqSet.
 Import ListNotations.
 Local Open Scope Z_scope.
 
 Inductive cls :=
-| CCommaSet        (* a set with more than one element: the token is no "sequence set", it is skipped *)
-| CStar            (* "*" in a set: matches everything / wrong bound *)
-| CReversedRange   (* a:b with a > b matches nothing *)
 | CUnknownKey      (* unknown keys are skipped, the reply is OK *)
 | CTextAtom        (* header / body / sent-date evaluation differs from the field semantics on this message *)
 | CQuotedSpace.   (* the command line is split with strings.Fields and re-joined: runs of blanks / tabs inside a quoted string collapse *)
 
 Definition cls_eqb (a b : cls) : bool :=
   match a, b with
-  | CCommaSet, CCommaSet | CStar, CStar | CReversedRange, CReversedRange
   | CUnknownKey, CUnknownKey
   | CTextAtom, CTextAtom | CQuotedSpace, CQuotedSpace => true
   | _, _ => false
@@ -28,10 +25,8 @@ Definition cls_eqb (a b : cls) : bool :=
 Definition two32 : Z := 4294967296.
 Definition numeral_ok (d : str) : bool :=
   match d with [] => false | _ => forallb is_digit d && (digits_val d 0 <? two32) end.
-Definition snum_ok (a : snum) : bool := match a with SNum d => numeral_ok d | SStar => true end.
-Definition item_ok (it : sitem) : bool :=
-  match it with SOne a => snum_ok a | SRange a b => snum_ok a && snum_ok b end.
-Definition set_ok (s : list sitem) : bool := match s with [] => false | _ => forallb item_ok s end.
+(** sequence-set / uid-set: nz-numbers, "*", ranges, comma lists (Spec.SeqSet.wf) *)
+Definition set_ok (s : seqset) : bool := Spec.SeqSet.wf s.
 
 Definition backslash : ascii := "\"%char.
 Definition qchar_ok (c : ascii) : bool :=
@@ -48,7 +43,7 @@ Definition date_ok (d : sdate) : bool :=
   && forallb is_digit yyyy && (length yyyy =? 4)%nat
   && match sdate_val d with Some _ => true | None => false end.
 Definition unknown_ok (name : str) : bool :=
-  atom_ok name && negb (is_sequence_set (to_upper name))
+  atom_ok name && negb (Model.SeqSet.is_sequence_set (to_upper name))
   && match kw_of (to_upper name) with None => true | Some _ => false end.
 
 Fixpoint wf_key (k : key) : bool :=
@@ -70,20 +65,16 @@ Definition wf_prog (ks : list key) : bool := match ks with [] => false | _ => fo
 (** the client's view is well formed: a flag is a non-empty word without white space
     (it is what FETCH FLAGS (...) lists between blanks) *)
 Definition flag_ok (f : str) : bool := match f with [] => false | _ => forallb (fun c => negb (is_space c)) f end.
-Definition mb_ok (mb : list smsg) : bool := forallb (fun m => forallb flag_ok (s_flags m)) mb.
+(** ... and the listing is in strictly ascending UID order, UIDs positive
+    (ORDER BY uid over UNIQUE(mailbox_id, uid); C09) *)
+Definition mb_ok (mb : list smsg) : bool :=
+  forallb (fun m => forallb flag_ok (s_flags m)) mb
+  && Spec.SeqSet.ascendingb (map s_uid mb) && forallb (fun m => 0 <? s_uid m) mb.
 
 (** ** classes *)
-Definition set_class (s : list sitem) : option cls :=
-  match s with
-  | [SOne (SNum _)] => None
-  | [SRange (SNum a) (SNum b)] => if digits_val a 0 <=? digits_val b 0 then None else Some CReversedRange
-  | [_] => Some CStar
-  | _ => Some CCommaSet
-  end.
-
 (** model and field semantics agree for the text key [k] on every message *)
-Definition text_agree_on (k : key) (im : Z * smsg) : bool :=
-  let m := to_msg im in
+Definition text_agree_on (mb : list smsg) (k : key) (im : Z * smsg) : bool :=
+  let m := to_msg mb im in
   match k with
   | KHdr h v => Bool.eqb (matches_header_or_body m (hdr_kw h) v) (spec_text_key k (snd im))
   | KHeader f v => Bool.eqb (matches_header m f v) (spec_text_key k (snd im))
@@ -92,14 +83,14 @@ Definition text_agree_on (k : key) (im : Z * smsg) : bool :=
   | _ => true
   end.
 Definition text_class (k : key) (mb : list smsg) : option cls :=
-  if forallb (text_agree_on k) (numbered mb) then None else Some CTextAtom.
+  if forallb (text_agree_on mb k) (numbered mb) then None else Some CTextAtom.
 
 (** keys other than NOT / OR / parenthesised lists *)
 Definition simple_class (k : key) (mb : list smsg) : option cls :=
   match k with
   | KAll => None
   | KHas _ | KUn _ | KNew | KKeyword _ | KUnkeyword _ => None   (* whole-flag comparison since fix 378938d *)
-  | KSeq s | KUid s => set_class s
+  | KSeq _ | KUid _ => None                                    (* RFC 3501 sets since fix 32751d9 *)
   | KHdr _ _ | KHeader _ _ | KBody _ | KDate true _ _ => text_class k mb
   | KText _ | KLarger _ | KSmaller _ | KDate false _ _ => None
   | KUnknown _ => Some CUnknownKey
